@@ -2,8 +2,13 @@
 """Regenerates MANIFEST.json from checks.json + manifest_meta.json (kept by hand)."""
 import json, subprocess, os
 here = os.path.dirname(os.path.abspath(__file__))
+import glob
 checks = json.load(open(os.path.join(here, "checks.json")))
+for f in sorted(glob.glob(os.path.join(here, "checks.d", "*.json"))):
+    checks.update(json.load(open(f)))
 meta = json.load(open(os.path.join(here, "manifest_meta.json")))
+for f in sorted(glob.glob(os.path.join(here, "manifest.d", "*.json"))):
+    meta["checks"].update(json.load(open(f)))
 props = [json.loads(l)["id"] for l in open(os.path.join(here, "properties.jsonl"))]
 out = {
     "version": 1,
